@@ -23,9 +23,10 @@ class _Dir(object):
         self.eof = False
         self.ev = Event()
         self.total = 0
+        self.chunked = False        # True: every sendall() stays a segment of its own (recv returns at most one)
 
     def put(self, tag, data):
-        if self.segs and self.segs[-1][0] == tag:
+        if self.segs and self.segs[-1][0] == tag and not self.chunked:
             self.segs[-1][1] += data
         else:
             self.segs.append([tag, bytearray(data)])
@@ -265,8 +266,9 @@ class Net(object):
         self.connections = 0
         self.log = []
 
-    def pair(self, peername=('192.0.2.10', 25), chooser=None):
+    def pair(self, peername=('192.0.2.10', 25), chooser=None, chunked=False):
         a, b = _Dir(), _Dir()
+        a.chunked = b.chunked = chunked
         client = VSocket(a, b, 'client%d' % self.connections, self, peername, chooser)
         server = VSocket(b, a, 'server%d' % self.connections, self, ('192.0.2.20', 40000), chooser)
         client.peer, server.peer = server, client
